@@ -342,7 +342,10 @@ def search(ctx):
         # whole lines of the insert list (instruction-named headers, reserved names, out-of-range values ...) placed at
         # line boundaries of valid BF2 files: first line, before / after every instruction and data-group marker, last line
         line_inserts = [x for x in INSERTS if x.endswith("\n") and len(x) > 2] + [
-            "##CRC: 0xDA2AC0048\n", "##Firmware: 70000 X 1.00.00\n", "#>SELECT_IF\n", "##load:\n", "##Load: 1\n", "#>LOAD\n"]
+            "##CRC: 0xDA2AC0048\n", "##Firmware: 70000 X 1.00.00\n", "#>SELECT_IF\n", "##load:\n", "##Load: 1\n", "#>LOAD\n",
+            # instructions named like header comments (their value is a parameter dictionary, not a string)
+            "#>Creator\n", "#>Creator K=V\n", "#>Bf3Update\n", "#>Bf3Update a=1\n", "#>Firmware\n", "#>Firmware x=1\n",
+            "#>FirmwareId a=b\n", "#>FirmwareVersion\n"]
         for _ in range(ctx.budget(2, 12)):
             ls = valid_bf2().split("\n")
             marks = [j for j, l in enumerate(ls) if l.startswith("#") or l[5:7].upper() in ("FE", "FF")]
@@ -414,6 +417,21 @@ def search(ctx):
                                                              "\x00", "\u2028", "\r", "\t", "{} {} {}"]))
             t = "".join(t)
             run("cfgid", lambda: ConfigId.create_from_str(t), t)
+            # a result handed out is the caller's: changing it must not change what a later parse of the same text returns
+            if i % 4 == 0:
+                for txt in ("12345-1234-1234-12 name", "foo (version 07)", t):
+                    try:
+                        r1 = ConfigId.create_from_str(txt)
+                        s0 = (r1.customer, r1.project, r1.device, r1.version, r1.name)
+                        r1.version, r1.name = 42, "changed by the caller"
+                        r2 = ConfigId.create_from_str(txt)
+                        s2 = (r2.customer, r2.project, r2.device, r2.version, r2.name)
+                    except Exception:   # noqa
+                        continue
+                    ctx.case(("cfgid-twice", txt))
+                    if r2 is r1 or s2 != s0:
+                        ctx.fail("global-state-changed", {"entry": "cfgid", "input": txt},
+                                 "parsing the same identifier text again returns %r after the first result (%r) was modified by the caller" % (s2, s0))
             if i % 3 == 0:
                 cm, comps = B.gen_file(r, 0.3, 1)
                 code = bytes(r.randrange(256) for _ in range(8))
